@@ -19,6 +19,9 @@ structure Info where
   conn : Option Nat := none
   served : Nat := 0
   starved : Bool := false
+  canc : Bool := false       -- cancellable context
+  cancelled : Bool := false
+  pre : Bool := false        -- cancelled before the call started
 
 structure Ctl where
   s : St := {}
@@ -43,20 +46,24 @@ def rep (n : Nat) (f : Ctl → Ctl) (c : Ctl) : Ctl := (List.range n).foldl (fun
 def expireAll (cfg : Cfg) (c : Ctl) : Ctl :=
   c.infos.foldl (fun c i => if i.dl && !finished c i then act cfg c i (.read false) else c) c
 
-def start (cfg : Cfg) (c : Ctl) (k n : Nat) (dl batch : Bool) : Ctl :=
+def start (cfg : Cfg) (c : Ctl) (k n : Nat) (dl batch : Bool) (flag : Char := ' ') : Ctl :=
   if c.infos.any (·.k == k) then c else
   if c.rc && c.s.pool.closed then c else   -- remoteclient.Close drops the pool object; later asks use a new one
   let frames := if c.rc && batch then 1 else n
-  let i : Info := { k := k, idx := c.s.calls.length, n := n, frames := frames, dl := dl }
+  let pre := flag == 'x'
+  let i : Info := { k := k, idx := c.s.calls.length, n := n, frames := frames, dl := dl,
+                    canc := flag == 'c' || pre, cancelled := pre, pre := pre }
   let c := { c with s := step cfg c.s (.newCall frames dl) }
   let stale := if c.allStale then c.s.pool.idle.length else 0
-  let c := act cfg c i (.get stale true)
+  -- a cancelled context makes DialContext fail; a pooled connection is handed out regardless
+  let c := act cfg c i (.get stale (!pre))
   let c := act cfg c i (.deadline true)
-  let c := rep frames (act cfg · i (.write true)) c
+  let c := if pre then act cfg (act cfg c i (.write true)) i .cancel   -- first frame, then ctx.Done() between writes
+           else rep frames (act cfg · i (.write true)) c
   let conn := match callOf c i with
     | some cl => cl.conn.map (·.id)
     | none => none
-  { c with infos := c.infos ++ [{ i with conn := conn }] }
+  { c with infos := c.infos ++ [{ i with conn := if pre then none else conn }] }
 
 def release (cfg : Cfg) (c : Ctl) (k : Nat) (o : Char) : Ctl :=
   match c.infos.find? (·.k == k) with
@@ -71,7 +78,7 @@ def release (cfg : Cfg) (c : Ctl) (k : Nat) (o : Char) : Ctl :=
     if o == 'e' then act cfg c i (.read false)
     else
       let c := act cfg c i (.read true)
-      if i.served < i.frames then c
+      if i.served < i.frames then (if i.cancelled && o == '+' then act cfg c i .cancel else c)
       else if i.starved then expireAll cfg c
       else act cfg c i (.put true)
 
@@ -88,6 +95,8 @@ def doOp (cfg : Cfg) (c : Ctl) (op : String) : Option Ctl :=
   match cs with
   | ['x'] => some { c with s := step cfg c.s .closeClient }
   | ['t'] => some (expireAll cfg c)
+  | 'k' :: r => (num r).map fun k =>
+    { c with infos := c.infos.map fun i => if i.k == k && i.canc && i.frames - i.served ≥ 2 then { i with cancelled := true } else i }
   | 'a' :: r =>
     let dl := r.getLast? == some 'd'
     let r := if dl then r.dropLast else r
@@ -95,9 +104,12 @@ def doOp (cfg : Cfg) (c : Ctl) (op : String) : Option Ctl :=
   | 'b' :: r =>
     let dl := r.getLast? == some 'd'
     let r := if dl then r.dropLast else r
+    let flag := if r.getLast? == some 'c' then 'c' else if r.getLast? == some 'x' then 'x' else ' '
+    let r := if flag != ' ' then r.dropLast else r
+    if flag != ' ' && (dl || c.rc) then none else
     match (String.ofList r).splitOn ":" with
     | [ks, ns] => match ks.toNat?, ns.toNat? with
-      | some k, some n => if n < 1 || n > 16 then none else some (start cfg c k n dl true)
+      | some k, some n => if n < 1 || n > 16 || (flag == 'x' && n < 2) then none else some (start cfg c k n dl true flag)
       | _, _ => none
     | _ => none
   | 'r' :: r => (num r).map fun k => release cfg c k '+'
@@ -160,6 +172,7 @@ def sizeOf (ops : List String) (k : Nat) : Nat :=
     match op.toList with
     | 'b' :: r =>
       let r := if r.getLast? == some 'd' then r.dropLast else r
+      let r := if r.getLast? == some 'c' || r.getLast? == some 'x' then r.dropLast else r
       match (String.ofList r).splitOn ":" with
       | [ks, ns] => if ks.toNat? == some k then ns.toNat?.getD acc else acc
       | _ => acc
